@@ -192,6 +192,14 @@ func runC08(c *sim.Ctx) *sim.Violation {
 		stream := append(append([]byte{}, prefixFrame...), frame...)
 		m := link.Mode{Chunk: t.Bool(1, 2), Stutter: t.Bool(1, 4), DataEOF: withData}
 		r := link.NewReader(c, stream, m).CutAt(len(prefixFrame)+k, wireE)
+		if kind == 1 && !(k == 0 && withData) {
+			// what the transport does AFTER it reported E: report it again, report
+			// io.EOF, or recover and deliver the rest (the failed call failed all the
+			// same). Not where E arrives together with the bytes that COMPLETE the good
+			// frame in front: that call rightly returns its packet, and no stateless
+			// ReadPacket can know about E on the next call unless the reader repeats it.
+			r.After = t.Int(3)
+		}
 		rd, rtype := link.WrapReader(c, r)
 		if rtype != "link.Reader" {
 			c.Count("probe.reader-seen-as-" + rtype)
